@@ -5,8 +5,6 @@ CASES = [
      "edits": [(GU, "used_modes = sorted(set([item for sublist in used_modes for item in sublist]))", "used_modes = list(set([item for sublist in used_modes for item in sublist]))")]},
     {"id": "passive-unsorted", "expect": "fire", "key": "C11.set-order",
      "edits": [(PV, "used_modes = sorted(set(item for sublist in used_modes for item in sublist))", "used_modes = list(set(item for sublist in used_modes for item in sublist))")]},
-    {"id": "ord-reg-unsorted", "expect": "fire", "key": "C11.set-order",
-     "edits": [(GU, "        ord_reg = sorted(list(ord_reg), key=lambda x: x.ind)\n", "")]},
     {"id": "raw-mode-index", "expect": "fire", "key": "C11.index-map",
      "edits": [(GU, "                        squeezing(params[0], params[1]), Snet, rnet, dict_indices[modes[0]]", "                        squeezing(params[0], params[1]), Snet, rnet, modes[0]")]},
     {"id": "raw-displacement-index", "expect": "fire", "key": "C11.index-map",
